@@ -275,6 +275,21 @@ theorem fold_filter (f : String → Grid Tok → Grid Tok) (l0 : Laser) (es : Li
       simp [hnd'.1]
     · simp [hne]
 
+/-- the filter loop touches no calibration -/
+theorem filterStep_calib (f : String → Grid Tok → Grid Tok) (sel : Option (List String)) (l : Laser) :
+    (filterStep f sel l).calib = l.calib := by
+  have key : ∀ (es : List String) (cur : Laser), (es.foldl (fstep f) cur).calib = cur.calib := by
+    intro es
+    induction es with
+    | nil => intro cur; rfl
+    | cons e t ih =>
+      intro cur
+      rw [List.foldl_cons, ih]
+      simp only [fstep]
+      split <;> rfl
+  unfold filterStep
+  exact key _ l
+
 /-- the table of filtered elements of `filterSpec`, looked up -/
 theorem lookup_done {β} (xs : List String) (p : String → Bool) (F : String → β) (n : String) :
     ((xs.filter p).map fun m => (m, F m)).lookup n = if n ∈ xs ∧ p n = true then some (F n) else none := by
@@ -372,13 +387,13 @@ theorem GridEq.trans {α} {g g' g'' : Grid α} (h : GridEq g g') (h' : GridEq g'
   ⟨h.1.trans h'.1, h.2.1.trans h'.2.1, fun i j hi hj =>
     (h.2.2 i j hi hj).trans (h'.2.2 i j (h.1 ▸ hi) (h.2.1 ▸ hj))⟩
 
-theorem LaserEq.refl (l : Laser) : LaserEq l l := ⟨rfl, rfl, GridEq.refl _⟩
+theorem LaserEq.refl (l : Laser) : LaserEq l l := ⟨rfl, rfl, rfl, GridEq.refl _⟩
 
 theorem LaserEq.symm {l l' : Laser} (h : LaserEq l l') : LaserEq l' l :=
-  ⟨h.1.symm, h.2.1.symm, h.2.2.symm⟩
+  ⟨h.1.symm, h.2.1.symm, h.2.2.1.symm, h.2.2.2.symm⟩
 
 theorem LaserEq.trans {l l' l'' : Laser} (h : LaserEq l l') (h' : LaserEq l' l'') : LaserEq l l'' :=
-  ⟨h.1.trans h'.1, h.2.1.trans h'.2.1, h.2.2.trans h'.2.2⟩
+  ⟨h.1.trans h'.1, h.2.1.trans h'.2.1, h.2.2.1.trans h'.2.2.1, h.2.2.2.trans h'.2.2.2⟩
 
 theorem ContentEq.refl (c : Content) : ContentEq c c := by
   cases c with
@@ -465,7 +480,7 @@ theorem RunEq.trans {r r' r'' : Result} (h : RunEq r r') (h' : RunEq r' r'') : R
   ⟨h.1.trans h'.1, h.2.trans h'.2⟩
 
 theorem field_congr {l l' : Laser} (h : LaserEq l l') (n : String) : GridEq (l.field n) (l'.field n) :=
-  ⟨h.2.2.1, h.2.2.2.1, fun i j hi hj => congrFun (h.2.2.2.2 i j hi hj) n⟩
+  ⟨h.2.2.2.1, h.2.2.2.2.1, fun i j hi hj => congrFun (h.2.2.2.2.2 i j hi hj) n⟩
 
 /-- the files of two images that are the same are the same -/
 theorem specFiles_congr (format : String) {l l' : Laser} (p : Path) (h : LaserEq l l') :
